@@ -109,6 +109,10 @@ fn check_pat(c: &PatCase) -> Outcome {
             }
         };
         let nontrivial = m::has_special(atoms);
+        // the polynomial matcher of the model against the literal recursive definition (small inputs)
+        if atoms.len() <= 7 && t.len() <= 7 && m::full_match(atoms, &t) != m::full_match_recursive(atoms, &t) {
+            panic!("harness model inconsistency: DP and recursive definitions of matching disagree on {} vs {:?}", show(&c.pat), c.text);
+        }
         let real = match real {
             Ok(p) => p,
             Err(e) => return Outcome::fail(format!("pattern {} is well-defined in POSIX but was rejected: {e}", show(&c.pat))),
@@ -297,6 +301,8 @@ pub fn run(ctx: &Ctx, st: &mut Stats) {
     let n = ctx.tier.pick(400_000, 20_000_000);
     PAT.run_random(ctx, st, n, arb_case);
     run_shell(ctx, st);
+    // coverage-guided tier over the same oracle
+    crate::fuzzing::tier_stage(ctx, st, &[("c04_pat", 600_000)]);
 }
 
 pub fn replay(driver: &str, case: &serde_json::Value) -> Result<(Outcome, Option<&'static str>), String> {
